@@ -37,9 +37,18 @@ class World:
         self.type = "none"
 
 
+class UserAbort(Exception):
+    pass
+
+
 class Counter(CallbackBase):
-    def __init__(self):
+    """counts the events it receives; when armed, raises at the end of the given epoch (a user callback that fails:
+    the run ends there, after at least one optimizer step - for the heap of Heap.tla that is a Fit like any other,
+    and whatever follows - Reinit in particular - must find the object in working order)"""
+
+    def __init__(self, raise_at=None):
         self.n = 0
+        self.raise_at = raise_at
 
     def on_train_start(self, nn_state):
         self.n += 1
@@ -52,6 +61,8 @@ class Counter(CallbackBase):
 
     def on_epoch_end(self, nn_state, epoch):
         self.n += 1
+        if self.raise_at == epoch:
+            raise UserAbort("epoch %d" % epoch)
 
     def on_batch_start(self, nn_state, epoch, batch):
         self.n += 1
@@ -179,8 +190,10 @@ def apply(w, act, r):
                             info["aux_moved_steps"] += 1
                     return out
 
-            cb = Counter()
-            kw = dict(epochs=r.randint(1, 2), pos_batch_size=r.randint(1, 3), neg_batch_size=r.choice([None, 2]),
+            epochs = r.randint(1, 2)
+            # (more often when something follows the training: that is where a run that ended badly can show)
+            cb = Counter(raise_at=r.randint(1, epochs) if r.random() < (0.6 if act.get("_followed") else 0.2) else None)
+            kw = dict(epochs=epochs, pos_batch_size=r.randint(1, 3), neg_batch_size=r.choice([None, 2]),
                       k=r.randint(1, 2), lr=0.1, callbacks=[cb], optimizer=Probe, optimizer_args=dict(oargs))
             if act["bases"]:
                 kw["input_bases"] = np.array(bases)
@@ -190,6 +203,8 @@ def apply(w, act, r):
             except ValueError as ex:
                 info["err"] = "ValueError"
                 info["msg"] = str(ex)
+            except UserAbort:
+                pass
             info["events"] = cb.n
         else:
             raise common.MachineryError("unknown action %r" % (act,))
@@ -270,7 +285,7 @@ def replay(beh, seed):
     out = []
     for i, step in enumerate(beh["hist"]):
         try:
-            info = apply(w, step["act"], r)
+            info = apply(w, dict(step["act"], _followed=i + 1 < len(beh["hist"])), r)
         except common.MachineryError:
             raise
         except Exception as ex:
